@@ -3,7 +3,8 @@ C12 — number comparison.  Mirrors `rsass/src/value/number.rs`:
 
     impl PartialEq for Number  { fn eq(&self, other) -> bool {
         let (a, b) = (self.value, other.value);
-        a == b || (a - b).abs() <= f64::EPSILON * a.abs().max(b.abs()) } }
+        let diff = (a - b).abs();
+        a == b || (diff.is_finite() && diff <= f64::EPSILON * a.abs().max(b.abs())) } }
     (until commit f2e4863: `(self.value - other.value).abs() / self.value.abs() <= f64::EPSILON`)
     impl PartialOrd for Number { fn partial_cmp(&self, other) -> Option<Ordering> {
         if self == other { Some(Equal) } else { self.value.partial_cmp(&other.value) } } }
@@ -29,6 +30,8 @@ class NumCmpOps (ν : Type) where
   /-- IEEE `a == b` (false when either is NaN) -/
   feq : ν → ν → Bool
   isNaN : ν → Bool
+  /-- `f64::is_finite` -/
+  isFinite : ν → Bool
   /-- `f64::EPSILON` = 2⁻⁵² -/
   eps : ν
   /-- the `1e-7` of `cmp_chan` -/
@@ -54,14 +57,15 @@ def cmpAsis : CmpQuirks := { numEqAsymmetric := true }
 
 /-- `Number::eq`.
 Before commit f2e4863 (flag `numEqAsymmetric`): `|a-b| / |a| <= ε`.
-Now (spec): `a == b || |a-b| <= ε * max(|a|,|b|)`, written here as
-`a == b || |a-b| <= ε·|a| || |a-b| <= ε·|b|` — the two forms agree on every pair of f64s
+Now (spec; commits f2e4863 + ad53320):
+`a == b || (|a-b|.is_finite() && |a-b| <= ε * max(|a|,|b|))`, written here with
+`|a-b| <= ε·|a| || |a-b| <= ε·|b|` for the `max` form — the two agree on every pair of f64s
 (multiplication by ε is monotone, `f64::max` of two non-NaN values is one of them, and a NaN
-operand makes `|a-b|` NaN so that every comparison is false); the correspondence run checks
-this bit-exactly. -/
+operand makes `|a-b|` NaN, which is not finite); the correspondence run checks this bit-exactly. -/
 def numEq {ν} [NumCmpOps ν] (q : CmpQuirks) (a b : ν) : Bool :=
   if q.numEqAsymmetric then fle (div (abs (sub a b)) (abs a)) eps
-  else feq a b || (fle (abs (sub a b)) (mul eps (abs a)) || fle (abs (sub a b)) (mul eps (abs b)))
+  else feq a b || (isFinite (abs (sub a b)) &&
+    (fle (abs (sub a b)) (mul eps (abs a)) || fle (abs (sub a b)) (mul eps (abs b))))
 
 /-- `Number::partial_cmp` -/
 def numCmp {ν} [NumCmpOps ν] (q : CmpQuirks) (a b : ν) : Option Ordering :=
